@@ -67,11 +67,10 @@ Section Bridge.
 
   Let W : wf_sig s = true := proj1 (C09_flagship.guard_parts s Hg).
   Let Hc : all_have_core s = true := proj1 (proj2 (C09_flagship.guard_parts s Hg)).
-  Let Ns : no_steal s = true := proj1 (proj2 (proj2 (C09_flagship.guard_parts s Hg))).
-  Let Hic : no_inverse_clash s = true := proj2 (proj2 (proj2 (C09_flagship.guard_parts s Hg))).
+  Let Hic : no_inverse_clash s = true := proj2 (proj2 (C09_flagship.guard_parts s Hg)).
 
   Lemma good_l : good l.
-  Proof. exact (C09_flagship.G s W Ns). Qed.
+  Proof. exact (C09_flagship.G s W). Qed.
 
   Lemma attr_nonempty a : In a l -> a_attr_name a <> Some EmptyString.
   Proof.
@@ -121,7 +120,7 @@ Section Bridge.
       pose proof (proj1 (Forall_forall _ _) (g_nonempty _ good_l) a Ha) as Na. cbv beta in Na.
       destruct (a_names a); [congruence | reflexivity].
     - apply nodupb_NoDup. eapply Permutation_NoDup; [apply Permutation_sym, their_spellings_perm|].
-      pose proof (clause_flags_distinct s W Ns Hic) as D.
+      pose proof (clause_flags_distinct s W Hic) as D.
       unfold flags_distinct in D. apply negb_true_iff, has_dup_NoDup in D.
       unfold C09Spec.all_spellings in D. cbn [cliT o_flags o_flag_aliases o_inverse] in D.
       rewrite <- app_assoc in D. exact D.
